@@ -104,6 +104,19 @@ def entries(tier):
                    bounds="geometries %s; witness.layers, each leaves / authentications vector, fri_step_sizes: honest length and +-1 one at a time; contents symbolic" % (geos,),
                    info=Entry("fri_verify", fv, [(g, t) for g in geos[:2] for t in fri_tweaks(g, False)[1:]], b_fri_verify, int_bound=17,
                               pre="none (decommitment / commitment lengths that stark_verify / fri_commit cannot produce)")))
+    alone = c18.standalone_entries()
+    s3 = list(range(0, 4))
+    E.append(Entry("fri_commit", [sxh.F_FRI + "::fri_commit", sxh.F_FRI + "::fri_commit_rounds", sxh.F_COMMIT + "::stark_commit"],
+                   [(geos[0], 5, (("unsent_inner_layers", a - 1), ("last_layer_coefficients", b - 1))) for a in s3 for b in s3] +
+                   [(geos[2], 5, (("unsent_inner_layers", a - 2), ("last_layer_coefficients", b - 1))) for a in s3 for b in s3],
+                   b_stark_commit, int_bound=17, budget_s=240,
+                   pre="reached through stark_commit with a config accepted by StarkConfig::validate (unsent FRI vectors of any length)",
+                   bounds="ToyLayout; 2- and 3-layer geometries; unsent inner_layers and last_layer_coefficients lengths 0..=3 independently", info=alone["fri_commit"], **toy))
+    bigq = lambda lnc: ([0] + [4] * 14, 0, lnc, [1])
+    E.append(Entry("queries_to_points", [sxh.F_QUERIES + "::queries_to_points", sxh.F_VERIFY + "::stark_verify"],
+                   [(geos[0], 1, 1, 5, ()), (bigq(8), 1, 1, 5, ()), (bigq(9), 1, 1, 5, ())], b_stark_verify, int_bound=17, max_paths=200, budget_s=280,
+                   pre="reached through stark_verify (after the trace / composition decommitments) with a config accepted by validate",
+                   bounds="ToyLayout; geometries with log_eval_domain_size in {2, 64, 65}; 1 query; contents symbolic", info=alone["queries_to_points"], **toy))
     E.append(Entry("stark_commit", [sxh.F_COMMIT + "::stark_commit", sxh.F_OODS + "::verify_oods", sxh.F_FRI + "::fri_commit", sxh.F_POW + "::commit"],
                    [(geos[0], L, ()) for L in range(0, 8)] + [(g, 5, t) for g in geos[:2] for t in ((("unsent_inner_layers", -1),), (("unsent_inner_layers", 1),),
                                                                                                    (("last_layer_coefficients", -1),), (("last_layer_coefficients", 1),))],
